@@ -829,6 +829,14 @@ func (m *machine) run(ops []Op) []Obs {
 				out = append(out, m.obs("fail", 0, d))
 			}
 			m.judgeState(d, pre)
+		case "expire":
+			// TTL timers of the resolver's layer and blob cache fire for (ref, layer digest)
+			if o.L >= 0 && o.L < nBlobs {
+				m.lm.VerifExpire(m.spec(o.R), layerDesc(o.L))
+			}
+			d := m.dump()
+			out = append(out, m.obs("ok", 0, d))
+			m.judgeState(d, pre)
 		default:
 			panic("unknown op " + o.Op)
 		}
@@ -874,6 +882,8 @@ func coqOp(o Op) string {
 		return fmt.Sprintf("Resolve %d %d %s", o.R, o.L, hx.CoqBool(len(o.Fl) > 0))
 	case "probe":
 		return fmt.Sprintf("Probe %d %d", o.R, o.T)
+	case "expire":
+		return fmt.Sprintf("Expire %d %d", o.R, o.L)
 	}
 	panic("op")
 }
@@ -1020,7 +1030,7 @@ func genCase(r *hx.Rng, tier string) Case {
 	grp := 0
 	for len(c.Ops) < nops {
 		ref := pickRef()
-		switch r.Pick(30, 6, 22, 24, 5, 4, 5, 4) {
+		switch r.Pick(30, 6, 22, 24, 5, 4, 5, 4, 5) {
 		case 0:
 			k := "diff"
 			if r.Bool() {
@@ -1076,6 +1086,10 @@ func genCase(r *hx.Rng, tier string) Case {
 			}
 		case 7:
 			c.Ops = append(c.Ops, Op{Op: "probe", R: ref, T: pickToc(ref)})
+		case 8:
+			if ref < len(w.Images) {
+				c.Ops = append(c.Ops, Op{Op: "expire", R: ref, L: w.Images[ref][r.Intn(len(w.Images[ref]))]})
+			}
 		}
 	}
 	return c
@@ -1096,6 +1110,8 @@ func corpus() []Case {
 		{World: std, Ops: []Op{{Op: "lookup", K: "diff", R: 0, T: 50}, {Op: "lookup", K: "diff", R: 0, T: 100}, {Op: "lookup", K: "diff", R: 0, T: 2}, {Op: "lookup", K: "diff", R: 2, T: 0}, {Op: "lookup", K: "diff", R: 1, T: 1, Mf: true}, {Op: "info", R: 1, T: 1, Mf: true}, {Op: "lookup", K: "diff", R: 1, T: 1}}},
 		// racing lookups on one image, shared layer between images
 		{World: std, Ops: []Op{{Op: "lookup", K: "diff", R: 0, T: 0, Grp: 1}, {Op: "lookup", K: "diff", R: 0, T: 1, Grp: 1}, {Op: "lookup", K: "diff", R: 0, T: 51, Grp: 1}, {Op: "use", R: 0, T: 1}, {Op: "lookup", K: "blob", R: 1, T: 1}, {Op: "release", R: 0, T: 1}, {Op: "probe", R: 1, T: 1}}},
+		// resolver-cache expiry: after the release the layer is only in the resolver's TTL cache (fault ignored); after expiry the fault bites
+		{World: std, Ops: []Op{{Op: "lookup", K: "diff", R: 1, T: 1}, {Op: "use", R: 1, T: 1}, {Op: "release", R: 1, T: 1}, {Op: "lookup", K: "diff", R: 1, T: 1, Fl: []int{1}}, {Op: "use", R: 1, T: 1}, {Op: "release", R: 1, T: 1}, {Op: "expire", R: 1, L: 1}, {Op: "lookup", K: "diff", R: 1, T: 1, Fl: []int{1}}, {Op: "expire", R: 1, L: 2}, {Op: "lookup", K: "diff", R: 1, T: 2}}},
 		// sub-steps interleaved with a release
 		{World: std, Ops: []Op{{Op: "loadref", R: 0}, {Op: "resolve", R: 0, L: 0}, {Op: "use", R: 0, T: 0}, {Op: "resolve", R: 0, L: 1}, {Op: "release", R: 0, T: 0}, {Op: "resolve", R: 0, L: 0}, {Op: "probe", R: 0, T: 0}, {Op: "resolve", R: 0, L: 5}, {Op: "probe", R: 0, T: 1}}},
 	}
